@@ -1080,7 +1080,7 @@ static qtreetbl_obj_t *flip_color(qtreetbl_obj_t *obj) {
     obj->red = !(obj->red);
     obj->left->red = !(obj->left->red);
     obj->right->red = !(obj->right->red);
-    _q_treetbl_flip_color_cnt++;
+    __sync_fetch_and_add(&_q_treetbl_flip_color_cnt, 1);
     return obj;
 }
 
@@ -1091,7 +1091,7 @@ static qtreetbl_obj_t *rotate_left(qtreetbl_obj_t *obj) {
     x->left = obj;
     x->red = x->left->red;
     x->left->red = true;
-    _q_treetbl_rotate_left_cnt++;
+    __sync_fetch_and_add(&_q_treetbl_rotate_left_cnt, 1);
     return x;
 }
 
@@ -1102,7 +1102,7 @@ static qtreetbl_obj_t *rotate_right(qtreetbl_obj_t *obj) {
     x->right = obj;
     x->red = x->right->red;
     x->right->red = true;
-    _q_treetbl_rotate_right_cnt++;
+    __sync_fetch_and_add(&_q_treetbl_rotate_right_cnt, 1);
     return x;
 }
 
